@@ -258,10 +258,23 @@ def run(ctx, eng):
            'client: RFC 7540 3.5 preface + SETTINGS(all local settings); '
            'server: SETTINGS only', node=fi.node)
     fbuf = m.func('frame_buffer.FrameBuffer.__init__')
-    ok = False
-    for nd in ast.walk(fbuf.node):
-        if isinstance(nd, ast.IfExp) and isinstance(nd.body, ast.Constant):
-            ok = nd.body.value == PREFACE
+    # on the server paths the expected preamble is the RFC literal, on the
+    # client paths it is empty (whatever the shape of the conditional)
+    seen = {}
+    for p in cm.normal_paths(eng.I.run(fbuf)):
+        ws = [e for e in p.events if e.kind == 'write' and
+              e.attr == '_preamble']
+        srv = cm.param_truth(p, 'server')
+        if ws:
+            v = ws[-1].value
+            if v[0] == 'ifexp' and len(v) == 4:
+                # an undecided conditional expression: read both arms
+                if cm.show0(v[1]) == 'server':
+                    seen.setdefault(True, set()).add(cm.const_of(v[2]))
+                    seen.setdefault(False, set()).add(cm.const_of(v[3]))
+                continue
+            seen.setdefault(srv, set()).add(cm.const_of(v))
+    ok = seen.get(True) == {PREFACE} and seen.get(False) == {b''}
     ctx.ob('TAB.preface', fbuf.qual, 'the server expects the same literal',
            ok, 'FrameBuffer(server=True) expects the RFC preface',
            node=fbuf.node)
